@@ -125,7 +125,7 @@ Theorem agree_step s l s' : Agree s -> step s l = Some s' -> Agree s'.
 Proof.
   intros HA H. destruct l as [t ks w|t|k i|k|k i|t|t]; cbn [step] in H.
   - (* Start *)
-    destruct (reqs s t) eqn:Et; [discriminate|]. destruct (nodupb ks && negb (is_nil ks)); [|discriminate]. inversion H; subst s'; clear H.
+    destruct (reqs s t) eqn:Et; [discriminate|]. destruct (nodupb ks); [|discriminate]. inversion H; subst s'; clear H.
     apply (agree_same_queues s _ t HA (idle_none s t Et)); [others t|intros k; cbn [locks set_req set_run]; auto].
   - (* Arrive *)
     destruct (running s t) eqn:Erun; [|discriminate]. destruct (reqs s t) as [r|] eqn:Et; [|discriminate].
